@@ -1,4 +1,10 @@
+#[cfg(feature = "hooks")]
+mod ephworld;
 mod props;
+#[cfg(feature = "hooks")]
+mod wire;
+#[cfg(feature = "hooks")]
+mod world;
 
 fn main() {
     let props = props::all();
